@@ -201,7 +201,7 @@ def replay(body):
 def run(ctx):
     rng = ctx.rng
     ctx.check_theorems()
-    ctx.check_generated(['vmatch', 'vidx', 'vfit'])
+    ctx.check_generated(['vmatch', 'vidx', 'vfit', 'vsrc'])
     # (K) model vs implementation
     exprs, meta = [], []
     for k in range(ctx.n(60, 600)):
@@ -212,6 +212,10 @@ def run(ctx):
             c['kinds'], c['true_idx'] = c['kinds'][:14], c['true_idx'][:14]
         if k % 5 == 4:
             c['mm'] = int(sum(1 for q in c['kinds'] if q == 'inlier') + rng.integers(0, 2))    # around the min_match threshold
+        if k % 4 == 1 and c['true'] is not None:
+            # tolerance of the order of the noise and of the start error: the accept/reject decisions are then close calls that
+            # depend on |a|, |b| and on the sqrt(|index|) relaxation for indices of both signs (the exact model decides them)
+            c['tol'] = float(rng.choice([0.2, 0.35, 0.5, 0.8]))
         pk = '[' + '; '.join('(%s, %s)' % ('ENaN' if np.isnan(w) else 'EVal ' + cq(F(w)), qv(p)) for w, p in zip(c['w'], c['pos'])) + ']'
         ctx.hist('NaN elevations', int(np.isnan(c['w']).sum()))
         exprs.append('match fastmatch_f %s %s %d %s %s %s %s with Valid m z a b => (1, mout m, vl z, vl a, vl b) | Invalid r => (0 - r, [], vl vzero, vl vzero, vl vzero) end'
